@@ -270,6 +270,146 @@ theorem step_keeps_none (env : Env) (hE : EnvOk env) (p : Params) (now : Int) (s
     | none => simp only [h1] at h; cases h
     | some b => simp only [h1] at h; cases h; exact ⟨hn, hlt⟩
 
+/-! ### the maximum end time of an auction that has a bid is never written again -/
+
+/-- `hasBids` and `maxEnd` of the auction stored under `i`, or "gone" -/
+def CapKept (a : Auction) (o : Option Auction) : Prop :=
+  o = none ∨ ∃ a', o = some a' ∧ a'.hasBids = true ∧ a'.maxEnd = a.maxEnd
+
+theorem closeAll_capKept (env : Env) (now : Int) (ids : List Nat) (s s' : St) (i : Nat) (a : Auction)
+    (hc : CapKept a (s.auc i)) (h : closeAll env now s ids = .ok s') : CapKept a (s'.auc i) := by
+  induction ids generalizing s with
+  | nil => unfold closeAll at h; cases h; exact hc
+  | cons id ids ih =>
+    unfold closeAll at h
+    cases hcl : closeAuction env now s id with
+    | ok s1 =>
+      simp only [hcl] at h
+      obtain ⟨a0, b', _, _, _, rfl⟩ := closeAuction_spec env now s s1 id hcl
+      apply ih _ _ h
+      rw [deleteAuction_auc]; unfold updA; split
+      · exact Or.inl rfl
+      · exact hc
+    | notFound => simp only [hcl] at h; exact ih s hc h
+    | err => simp only [hcl] at h; cases h
+    | panic => simp only [hcl] at h; cases h
+
+/-- Whatever the operation and whatever the parameters in force when it runs: an auction that has received
+    a bid either is gone afterwards (closed) or still has `hasBids` and the SAME maximum end time. -/
+theorem step_capKept (env : Env) (hE : EnvOk env) (p : Params) (now : Int) (s s' : St) (op : Op) (i : Nat)
+    (a : Auction) (hwf : WF env s) (ha : s.auc i = some a) (hb : a.hasBids = true)
+    (h : step env p now s op = .ok s') : CapKept a (s'.auc i) ∧ s.nextId ≤ s'.nextId := by
+  have hne : i ≠ s.nextId := by have := (hwf i a ha).2.1; omega
+  have keep : CapKept a (s.auc i) := Or.inr ⟨a, ha, hb, rfl⟩
+  cases op with
+  | startSurplus seller lotD lot bidD =>
+    simp only [step] at h; unfold startSurplus at h
+    by_cases hl : lot < 0
+    · simp only [hl, ite_true] at h; cases h
+    simp only [hl, ite_false] at h
+    cases h1 : send s.bal seller env.M lotD lot with
+    | none => simp only [h1] at h; cases h
+    | some b =>
+      simp only [h1] at h; cases h
+      exact ⟨by rw [storeNew_auc_other { s with bal := b } _ i hne]; exact keep, by show s.nextId ≤ s.nextId + 1; omega⟩
+  | startDebt buyer bidD bid lotD lot debtD debt =>
+    simp only [step] at h; unfold startDebt at h
+    by_cases hm : env.minter buyer = true
+    case neg => simp only [hm, not_false_eq_true, ite_true] at h; cases h
+    simp only [hm, not_true_eq_false, ite_false] at h
+    by_cases hl : debt < 0
+    · simp only [hl, ite_true] at h; cases h
+    simp only [hl, ite_false] at h
+    cases h1 : send s.bal buyer env.M debtD debt with
+    | none => simp only [h1] at h; cases h
+    | some b =>
+      simp only [h1] at h; cases h
+      exact ⟨by rw [storeNew_auc_other { s with bal := b } _ i hne]; exact keep, by show s.nextId ≤ s.nextId + 1; omega⟩
+  | startCollateral seller lotD lot bidD maxBid addrs ws debtD debt =>
+    simp only [step] at h; unfold startCollateral at h
+    by_cases hw : weightsValid addrs ws = true
+    case neg => simp only [hw, not_false_eq_true, ite_true] at h; cases h
+    simp only [hw, not_true_eq_false, ite_false] at h
+    by_cases hl : lot < 0
+    · simp only [hl, ite_true] at h; cases h
+    simp only [hl, ite_false] at h
+    cases h1 : send s.bal seller env.M lotD lot with
+    | none => simp only [h1] at h; cases h
+    | some b1 =>
+      simp only [h1] at h
+      by_cases hd : debt < 0
+      · simp only [hd, ite_true] at h; cases h
+      simp only [hd, ite_false] at h
+      cases h2 : send b1 seller env.M debtD debt with
+      | none => simp only [h2] at h; cases h
+      | some b2 =>
+        simp only [h2] at h; cases h
+        exact ⟨by rw [storeNew_auc_other { s with bal := b2 } _ i hne]; exact keep, by show s.nextId ≤ s.nextId + 1; omega⟩
+  | placeBid id bidder denom amt =>
+    simp only [step] at h
+    obtain ⟨a0, a', b', ha0, _, hd, rfl⟩ := placeBid_spec env p now s s' id bidder denom amt h
+    obtain ⟨hid, _, _, _, _, _, _, _, _, _, hhas, hmax, _⟩ := bidDispatch_record env hE p now s.bal b' a0 a' bidder denom amt hd
+    have hid' : a'.id = id := hid.trans (hwf id a0 ha0).1
+    refine ⟨?_, Nat.le_refl _⟩
+    rw [setAuction_auc]; unfold updA
+    by_cases hi : i = a'.id
+    · simp only [hi, ite_true]
+      have : a0 = a := by
+        have := ha0; rw [← hid', ← hi, ha] at this; cases this; rfl
+      subst this
+      exact Or.inr ⟨a', rfl, hhas, by rw [hmax]; simp only [hb, ite_true]⟩
+    · simp only [hi, ite_false]; exact keep
+  | close id =>
+    simp only [step] at h
+    obtain ⟨a0, b', _, _, _, rfl⟩ := closeAuction_spec env now s s' id h
+    refine ⟨?_, Nat.le_refl _⟩
+    rw [deleteAuction_auc]; unfold updA; split
+    · exact Or.inl rfl
+    · exact keep
+  | beginBlock =>
+    simp only [step] at h; unfold beginBlock at h
+    cases hc : closeAll env now s ((s.index.filter (fun k => decide (k.1 ≤ now))).map (·.2)) with
+    | ok s1 =>
+      simp only [hc] at h; cases h
+      exact ⟨closeAll_capKept env now _ s _ i a keep hc, by rw [closeAll_nextId env now _ s _ hc]; exact Nat.le_refl _⟩
+    | notFound => simp only [hc] at h; cases h
+    | err => simp only [hc] at h; cases h
+    | panic => simp only [hc] at h; cases h
+  | xfer frm to d n =>
+    simp only [step] at h
+    by_cases hm : frm = env.M ∨ to = env.M
+    · simp only [hm, ite_true] at h; cases h
+    simp only [hm, ite_false] at h
+    cases h1 : send s.bal frm to d n with
+    | none => simp only [h1] at h; cases h
+    | some b => simp only [h1] at h; cases h; exact ⟨keep, Nat.le_refl _⟩
+
+/-- … and so over every history, with the parameters changing arbitrarily between the operations -/
+theorem runP_capKept (env : Env) (hE : EnvOk env) (ops : List (Params × Int × Op)) (s : St) (hI : Inv env s)
+    (hops : ∀ x, x ∈ ops → OpOk env x.2.2) (i : Nat) (a : Auction) (hlt : i < s.nextId)
+    (hc : CapKept a (s.auc i)) : CapKept a ((runP env s ops).auc i) := by
+  induction ops generalizing s with
+  | nil => exact hc
+  | cons x rest ih =>
+    obtain ⟨p, now, op⟩ := x
+    unfold runP
+    cases hs : step env p now s op with
+    | ok s1 =>
+      simp only
+      have hI1 := step_inv env hE p now s s1 op hI (hops (p, now, op) (by simp)) hs
+      have hrest : ∀ y, y ∈ rest → OpOk env y.2.2 := fun y hy => hops y (by simp [hy])
+      rcases hc with hn | ⟨a1, ha1, hb1, hm1⟩
+      · obtain ⟨hn1, hlt1⟩ := step_keeps_none env hE p now s s1 op i hI.1 hn hlt hs
+        exact ih s1 hI1 hrest hlt1 (Or.inl hn1)
+      · obtain ⟨hk, hmono⟩ := step_capKept env hE p now s s1 op i a1 hI.1 ha1 hb1 hs
+        have hlt1 : i < s1.nextId := by omega
+        rcases hk with hn | ⟨a2, ha2, hb2, hm2⟩
+        · exact ih s1 hI1 hrest hlt1 (Or.inl hn)
+        · exact ih s1 hI1 hrest hlt1 (Or.inr ⟨a2, ha2, hb2, hm2.trans hm1⟩)
+    | err => simp only; exact ih s hI (fun y hy => hops y (by simp [hy])) hlt hc
+    | notFound => simp only; exact ih s hI (fun y hy => hops y (by simp [hy])) hlt hc
+    | panic => simp only; exact ih s hI (fun y hy => hops y (by simp [hy])) hlt hc
+
 theorem ind_t (n : Int) : ind True n = n := by simp [ind]
 theorem ind_f (n : Int) : ind False n = 0 := by simp [ind]
 theorem ind_tt (n : Int) : ind (True ∧ True) n = n := by simp [ind]
